@@ -112,6 +112,9 @@ impl Family for Repro {
         self.counter += 1;
         let texts: Vec<String> = if case.get("k1").is_some() {
             collide_texts(case)
+        } else if case["many"] == true {
+            // the many-lints program of MC_ManyLints: two files with lints at the same rows and columns, some suppressed
+            crate::fam_lints::many_texts(case)
         } else if case.get("family").is_some() {
             // a graph of MC_CyclesGen (inheritance / aliases / containment, cyclic or not), one node per file
             crate::fam_cycles::render_split(case)
@@ -232,7 +235,27 @@ impl Family for Repro {
                 requests.push(std::fs::read(dir.join("gen1.stdin")).map(|b| crate::util::hash_bytes(&b).to_string()).unwrap_or_else(|_| "none".into()));
                 exits.push(res.status.and_then(|s| s.code()).unwrap_or(-1));
             }
-            emit_event("repro", &json!({"ev": "rerun", "stderr": stderrs, "request": requests, "exit": exits}));
+            // the last file as a reference instead of a source: the same verdict, and a request of the same size (every
+            // file is transmitted whole in either role; only the list it stands in changes)
+            let mut lens: Vec<i64> = Vec::new();
+            let mut role_exits = Vec::new();
+            for as_ref in [false, true] {
+                let _ = std::fs::remove_file(dir.join("gen1.stdin"));
+                let mut argv: Vec<String> = names[..n - 1].to_vec();
+                if as_ref {
+                    argv.extend(["-R".to_owned(), names[n - 1].clone()]);
+                } else {
+                    argv.push(names[n - 1].clone());
+                }
+                argv.extend(["--diagnostic-format".into(), "json".into(), "-G".into(), gen.display().to_string()]);
+                if n < 2 {
+                    break;
+                }
+                let res = crate::fam_driver::run_limited(std::process::Command::new(crate::fam_driver::slicec_bin()).args(&argv).current_dir(&dir), std::time::Duration::from_secs(20));
+                lens.push(std::fs::read(dir.join("gen1.stdin")).map(|b| b.len() as i64).unwrap_or(-1));
+                role_exits.push(res.status.and_then(|s| s.code()).unwrap_or(-1));
+            }
+            emit_event("repro", &json!({"ev": "rerun", "stderr": stderrs, "request": requests, "exit": exits, "role_request_len": lens, "role_exit": role_exits}));
         }
         let _ = std::fs::remove_dir_all(&dir);
         Outcome { fail: None, nontrivial: n >= 2, key, rendered }
